@@ -956,6 +956,11 @@ def analyse(sc, res, drv):
                     props.append("C06")
                 if len(actual) > len(want_o) and m["state"] == "stopped":
                     props.append("C16")
+                # the stop announcements themselves differ: an instance stopped that had no reason to (or did not stop,
+                # or announced it differently) - that is the lifecycle (C16), whatever it did to the invocations
+                un = st["name"] + ".unregistered"
+                if [(x[0], x[2]) for x in want_o if x[0] == un] != [(x[0], x[2]) for x in actual if x[0] == un] and "C16" not in props:
+                    props.append("C16")
                 fnd.append({"kind": "outputs", "props": props, "epoch": e, "handler": hid[-6:], "name": st["name"],
                             "why": "the instance's output differs from the model's run over what it was handed",
                             "model": [[x[0], x[2], x[3], x[4]] for x in want_o][:12],
